@@ -106,7 +106,10 @@ Inductive stmt : Type :=
 | Insert (bytes : list Z)
 | NoOp                                  (* make_bin / make_raw / make_wav ...: no bytes *)
 | End
-| Include (fid : nat) (body : list stmt)  (* .include: the statements of the file, [fid] unique per inclusion *)
+| Include (own : bool) (fid : nat) (body : list stmt)
+    (* the statements of another file with its own names, [fid] unique per inclusion.  own = true: .include (the file
+       has its own link base); own = false: the next file given to the linker (compile_and_link_files): it shares the
+       link base and may fix it *)
 | Extern (names : list string)           (* .extern a, b   (and the `::` / `==` forms: definition + Extern) *)
 | ExternAll.                             (* .extern all *)
 
@@ -171,7 +174,7 @@ Record defn : Type := mkDef { d_file : nat; d_name : string; d_scope : nat; d_ex
 Fixpoint defs_stmt (f sc : nat) (s : stmt) : list defn :=
   match s with
   | Assign n e => [mkDef f n sc e]
-  | Include fid body =>
+  | Include _ fid body =>
       (fix go (sc' : nat) (l : list stmt) : list defn :=
          match l with
          | [] => []
@@ -192,7 +195,7 @@ Fixpoint collect_defs (f sc : nat) (p : list stmt) : list defn :=
 Fixpoint keys_stmt (f sc : nat) (s : stmt) : list key :=
   match s with
   | LocalLabel n => [KLocal f sc n]
-  | Include fid body =>
+  | Include _ fid body =>
       (fix go (sc' : nat) (l : list stmt) : list key :=
          match l with
          | [] => []
@@ -215,7 +218,7 @@ Fixpoint exports_stmt (f : nat) (s : stmt) : list (string * nat) * list nat :=
   match s with
   | Extern ns => (map (fun n => (n, f)) ns, [])
   | ExternAll => ([], [f])
-  | Include fid body =>
+  | Include _ fid body =>
       (fix go (l : list stmt) : list (string * nat) * list nat :=
          match l with
          | [] => ([], [])
@@ -233,7 +236,7 @@ Fixpoint collect_exports (f : nat) (p : list stmt) : list (string * nat) * list 
 
 Fixpoint file_ids_stmt (s : stmt) : list nat :=
   match s with
-  | Include fid body => fid :: (fix go (l : list stmt) : list nat :=
+  | Include _ fid body => fid :: (fix go (l : list stmt) : list nat :=
                                   match l with [] => [] | End :: _ => [] | x :: r => file_ids_stmt x ++ go r end) body
   | Repeat _ body => (fix go (l : list stmt) : list nat :=
                         match l with [] => [] | x :: r => file_ids_stmt x ++ go r end) body
@@ -263,13 +266,24 @@ Fixpoint find_def (f : nat) (s : string) (l : list defn) : option defn :=
 Definition vmem (f : nat) (s : string) (vis : list (nat * string)) : bool :=
   existsb (fun p => Nat.eqb f (fst p) && String.eqb s (snd p)) vis.
 
-(* the first statement of the top level that can fix the link base *)
-Fixpoint first_base (p : list stmt) : option expr :=
+(* the first statement that can fix the link base, with the file it stands in: at the top level of the program
+   file or of a file linked after it (an included file has a base of its own) *)
+Fixpoint base_stmt (f : nat) (s : stmt) : option (nat * expr) :=
+  match s with
+  | Link e | Skip e => Some (f, e)
+  | Include false fid body =>
+      (fix go (l : list stmt) : option (nat * expr) :=
+         match l with
+         | [] => None
+         | End :: _ => None
+         | x :: r => match base_stmt fid x with Some b => Some b | None => go r end
+         end) body
+  | _ => None
+  end.
+Fixpoint first_base (f : nat) (p : list stmt) : option (nat * expr) :=
   match p with
   | [] => None
-  | Link e :: _ => Some e
-  | Skip e :: _ => Some e
-  | _ :: r => first_base r
+  | x :: r => match base_stmt f x with Some b => Some b | None => first_base f r end
   end.
 
 Definition default_base : Z := 512.     (* 0o1000 *)
@@ -512,7 +526,7 @@ Definition lay_leaf (inrep : bool) (s : stmt) (st : lstate) : lres :=
       else if inrep then XUnsup "base-set-inside-repeat"
       else XOk (mkL a f (l_scope st) (l_labels st) (l_ddots st) true (l_inc st), [mkItem a sc (Link e) 0])
   | Repeat _ _ => XUnsup "internal: repeat as leaf"
-  | Include _ _ => XUnsup "internal: include as leaf"
+  | Include _ _ _ => XUnsup "internal: include as leaf"
   | End => XUnsup "end-inside-block"
   | Extern _ | ExternAll => if inrep then XUnsup "extern-inside-repeat" else XOk (put st sc s 0)
   | _ =>
@@ -542,18 +556,18 @@ Fixpoint lay_stmt (inrep : bool) (s : stmt) (st : lstate) {struct s} : lres :=
               | [] => XOk (st1, [])
               | x :: r => xdo a <- lay_stmt true x st1; xdo b <- lay_body r (fst a); XOk (fst b, snd a ++ snd b)
               end) body st0) st
-  | Include fid body =>
+  | Include own fid body =>
       if inrep then XUnsup "include-inside-repeat"
       else
-        (* compile_include: the file's own names (fid), its own local scopes, its own (unknown) link base;
-           it stops at its .end; afterwards the including file goes on where it was *)
+        (* compile_include / the next linked file: the file's own names (fid), its own local scopes, for .include its
+           own (unknown) link base; it stops at its .end; afterwards the including file goes on where it was *)
         xdo r <- (fix lay_file (l : list stmt) (st1 : lstate) : lres :=
                     match l with
                     | [] => XOk (st1, [])
                     | End :: _ => XOk (st1, [])
                     | x :: r => xdo a <- lay_stmt false x st1; xdo b <- lay_file r (fst a); XOk (fst b, snd a ++ snd b)
                     end) body
-                 (mkL (l_addr st) fid 0 (l_labels st) (l_ddots st) (l_based st) true);
+                 (mkL (l_addr st) fid 0 (l_labels st) (l_ddots st) (l_based st) (own || l_inc st));
         let st' := fst r in
         XOk (mkL (l_addr st') (l_file st) (l_scope st) (l_labels st') (l_ddots st') (l_based st') (l_inc st), snd r)
   | _ => lay_leaf inrep s st
@@ -567,10 +581,10 @@ Fixpoint lay_list (inrep : bool) (l : list stmt) (st : lstate) : lres :=
 
 (* the link base: constants only *)
 Definition find_base (q : list stmt) : xres Z :=
-  match first_base q with
+  match first_base 0 q with
   | None => XOk default_base
-  | Some e =>
-      xdo v <- xeval alldefs allkeys exports [] [] fuel [] (0%nat, None) None e;
+  | Some (f, e) =>
+      xdo v <- xeval alldefs allkeys exports [] [] fuel [] (f, None) None e;
       lift (get_as_int (Some 16) false None v)
   end.
 
